@@ -53,6 +53,15 @@ BASIC = [
     G('same-literal-suppressed-in-match-rule', [Rule('M', Asg('cs', '+=', Ref('C'))),
                                                 Rule('C', S(Sup(Str('|')), ID, Str('|')))]),
     G('same-literal-suppressed-and-bool', [Rule('M', S(Asg('on', '?=', Str('!')), Asg('n', '=', INT), Sup(Str('!'))))]),
+    # the suppress operator on a repetition / unordered group suppresses the whole repetition, nothing else
+    G('suppressed-star', [Rule('M', S(Sup(Star(Str('a'))), Asg('x', '=', INT)))]),
+    G('suppressed-plus-sep', [Rule('M', S(Sup(Plus(ID, sep=Str(','))), Str(':'), Asg('x', '=', INT)))]),
+    G('suppressed-plus-in-match-rule', [Rule('M', Asg('vs', '+=', Ref('V'))),
+                                        Rule('V', S(Str('<'), Sup(Plus(INT)), ID, Str('>')))]),
+    G('suppressed-ung-in-match-rule', [Rule('M', Asg('vs', '+=', Ref('V'))),
+                                       Rule('V', S(Str('x'), Sup(Ung([Str('a'), Str('b')])), Str('y')))]),
+    G('suppressed-rule-ref-star', [Rule('M', S(Sup(Star(Ref('W'))), Asg('n', '=', ID))),
+                                   Rule('W', S(Str('#'), INT))]),
     G('suppress-in-choice', [Rule('M', S(A(Sup(Str('a')), Str('b')), Asg('x', '=', INT)))],
       tags=['nodeless']),
     G('optional-in-choice', [Rule('M', S(A(Opt(Str('a')), Str('b')), Asg('x', '=', INT)))],
@@ -155,6 +164,11 @@ def multi_family():
         G('multi-match-rule-named-sep', [Rule('M', S(Asg('items', '+=', Ref('sep')), Opt(Asg('more', '*=', Ref('sep'), sep=Str(';'))))),
                                          Rule('sep', Re(r's\d'))], tags=['multi']),
         G('multi-id-values', [Rule('M', S(Asg('n', '=', ID), A(S(Str(','), Asg('n', '=', ID)), Str(';'))))], tags=['multi']),
+        # a repeat operator directly on a list assignment (the assignment itself is a repetition)
+        G('multi-opt-of-star-asg', [Rule('M', S(Str('m'), Opt(Asg('a', '*=', INT)), Str(';')))], tags=['multi']),
+        G('multi-plus-of-star-asg', [Rule('M', S(Asg('a', '=', INT), Plus(Asg('a', '*=', INT)), Opt(Str(';'))))], tags=['multi']),
+        G('multi-star-of-plus-asg', [Rule('M', S(Str('m'), Star(Asg('a', '+=', ID, sep=Str(','))), Str(';')))], tags=['multi']),
+        G('multi-star-of-star-asg-sep', [Rule('M', S(Str('m'), Star(Asg('a', '*=', INT, sep=Str(','))), Str(';')))], tags=['multi']),
         # matched values that convert to a falsy Python value ('' / 0.0) are values like any other
         G('multi-string-values', [Rule('M', S(Asg('a', '=', STRING), Asg('a', '=', STRING)))], tags=['multi']),
         G('multi-string-seq-opt', [Rule('M', S(Asg('a', '=', STRING), Opt(S(Str(','), Asg('a', '=', STRING)))))], tags=['multi']),
